@@ -221,6 +221,13 @@ func drawPair(t *rapid.T) Pair {
 		p.Mut = []string{"pipe-constructed"}
 	}
 	p.B = b
+	// long targets: the two requests share a first segment of 200-600 bytes, so that whatever tells them apart
+	// comes late in the key material (a key built from a bounded prefix, a fixed buffer, a truncated hash input)
+	if rapid.IntRange(0, 5).Draw(t, "long-prefix") == 0 {
+		seg := "/" + strings.Repeat(rapid.SampledFrom([]string{"L", "ab", "x-"}).Draw(t, "unit"), rapid.SampledFrom([]int{200, 255, 256, 300, 600}).Draw(t, "n"))
+		p.A.Path, p.B.Path = seg+p.A.Path, seg+p.B.Path
+		p.Mut = append(p.Mut, "long-prefix")
+	}
 	return p
 }
 
